@@ -13,6 +13,7 @@ __all__ = (
     "StaticUseDep",
     "SubSlotDep",
     "UseDepDefault",
+    "VersionGlobMatch",
     "VersionMatch",
 )
 
@@ -149,6 +150,51 @@ class VersionMatch(packages.PackageRestriction):
     def __init__(self, *args, **kwds):
         v = _VersionMatch(*args, **kwds)
         super().__init__("fullver", v, negate=kwds.get("negate", False))
+
+    def match(self, pkg, *args, **kwds):
+        return self.restriction.match(pkg)
+
+
+class _VersionGlobMatch(GenericEquality, restriction.base):
+    """package restriction implementing the ``=cat/pkg-ver*`` version glob"""
+
+    __slots__ = ("rev", "ver")
+
+    __attr_comparison__ = ("ver", "rev")
+
+    type = restriction.value_type
+    attr = "fullver"
+
+    def __init__(self, ver: str, rev: None | str = None):
+        """
+        :param ver: version whose components must be a prefix of the package's
+        :param rev: revision written in the glob, if any
+        """
+        self.ver = ver
+        self.rev = rev
+
+    def match(self, pkg, *args, **kwargs):
+        if pkg.version is None:
+            return False
+        return cpv.ver_glob_match(self.ver, self.rev, pkg.version, pkg.revision)
+
+    def __str__(self):
+        if not self.rev:
+            return f"ver = {self.ver}*"
+        return f"ver-rev = {self.ver}-r{self.rev}*"
+
+    def __repr__(self):
+        return f"<{self.__class__.__name__} {self} @#x>"
+
+    def __hash__(self):
+        return hash((self.ver, self.rev))
+
+
+class VersionGlobMatch(packages.PackageRestriction):
+    __slots__ = ()
+
+    def __init__(self, *args, **kwds):
+        super().__init__("fullver", _VersionGlobMatch(*args, **kwds))
 
     def match(self, pkg, *args, **kwds):
         return self.restriction.match(pkg)
